@@ -630,6 +630,21 @@ func (c *Ctx) checkArgsReadAtCall(rule string) {
 		c.check(guarded, rule, "Zlisp.PrepareCallExprArgs", "locations kept for Go builtins", posA,
 			"the read is made only when the callee is not a Go builtin", "the read is also made for Go builtins, which need the location itself: (= h.x 3) would receive the old value instead of the place to assign")
 	}
+	// (c) the tail-call preparation is the third place that hands arguments to a compiled function: they were pushed
+	// by compiled code (a dot-symbol pushes itself) and the scopes of the call are removed right after it
+	if tprep := c.fn("PrepareCallInstr.execute"); tprep != nil {
+		// RValue applied to what was popped off the data stack (directly or in a helper called from here)
+		reads := false
+		popN := c.fn("Stack.PopExpressions")
+		for _, g := range append([]*ssa.Function{tprep}, directCallees(tprep)...) {
+			if len(callsOf(g, rv)) > 0 && popN != nil && len(callsOf(g, popN)) > 0 {
+				reads = true
+			}
+		}
+		c.check(reads, rule, "PrepareCallInstr.execute", "arguments of the tail call read in the scopes of the call", tprep.Pos(),
+			"the tail-call preparation passes the pushed arguments through RValue before the scopes of the iteration are removed",
+			"the tail-call preparation leaves a dot-symbol argument as the bare symbol: it is dereferenced when the next iteration binds its parameters, after the scopes of the call have been removed, so (f (- n 1) h.x) with a let-local h fails with 'symbol h not found' although the same call out of tail position works")
+	}
 	// (b)
 	okB, nStore := true, 0
 	eachInstr(force, func(b *ssa.BasicBlock, i int, in ssa.Instruction) {
@@ -735,4 +750,18 @@ func (c *Ctx) tailArgsFromSelf() bool {
 		}
 	}
 	return ok
+}
+
+func directCallees(f *ssa.Function) []*ssa.Function {
+	seen := map[*ssa.Function]bool{}
+	var out []*ssa.Function
+	eachInstr(f, func(b *ssa.BasicBlock, i int, in ssa.Instruction) {
+		if ci, ok := in.(ssa.CallInstruction); ok {
+			if g := ci.Common().StaticCallee(); g != nil && fnPkgPath(g) == zygoPath && !seen[g] {
+				seen[g] = true
+				out = append(out, g)
+			}
+		}
+	})
+	return out
 }
